@@ -41,6 +41,8 @@ SLICES = {
     # alias files (file named unlike its module) with a borrower: eligibility by canonical name under noDeps
     'q7': (1, 1, 1, 'Req_q2', 'Src_q2', '{"absent"}', '{"ok", "err"}', '{"ok", "nf"}', '{"ok"}'),
     'q6': (2, 0, 0, 'Req_q6', 'Src_q6', '{}', '{"ok", "err"}', '{}', '{"ok"}'),
+    # liveness: cycles, self imports, all phases; SPECIFICATION Spec (weak fairness), PROPERTY Termination
+    'l1': (1, 1, 1, 'Req_l1', 'Src_l1', '{"fresh", "absent"}', '{"ok", "err"}', '{"ok", "nf"}', '{"ok"}'),
     't1': (2, 1, 1, 'Req_t1', 'Src_t1', '{"fresh", "absent"}', '{"ok", "err"}', '{"ok", "nf"}', '{"ok", "err"}'),
     't3': (1, 2, 2, 'Req_q3', 'Src_q3', '{"fresh", "absent", "error", "silent"}', '{"ok", "err"}', '{"ok", "nf", "err"}', '{"ok", "err"}'),
 }
@@ -75,7 +77,7 @@ def trace_cfg(nsrc, nsea, nbor, devs=()):
 
 
 def model_check(sl, formulas, export='Export', timeout=1500):
-    res = tlc.run('MC_MibCompile', 'gen.cfg', files={'gen.cfg': cfg_text(sl, formulas, export)}, timeout=timeout)
+    res = tlc.run('MC_MibCompile', 'gen.cfg', files={'gen.cfg': cfg_text(sl, formulas, export)}, timeout=timeout, deadlock=True)
     return res
 
 
@@ -188,6 +190,11 @@ def run(out, prop, tier, seed, max_replay=None, only_slices=None):
             elif v['refine'] != 'ok':
                 out.add_drift('slice=%s at=%s expected=%s got=%s procOk=%s [%s]' % (
                     sl, v['at'], v['expected'], v['got'], v['procOk'], brief(tr)))
+    if prop == 'C08' and not only_slices:
+        # "always terminates": a temporal property, checked under the fair specification without any state constraint
+        lcfg = cfg_text('l1', []).replace('INIT Init\nNEXT Next\n', 'SPECIFICATION Spec\n') + 'PROPERTY Termination\n'
+        lres = tlc.run('MC_MibCompile', 'live.cfg', files={'live.cfg': lcfg}, timeout=3000)
+        out.add_tlc(lres, 'MibCompile/l1-liveness(Termination under WF)')
     out.assumptions += ['TLC and the Json/IOUtils community modules are trusted',
                         'component answers are given by scripted doubles (harness/doubles.py); pass 1 is a double in this mode',
                         'borrowers are the real AnyFileBorrower around a reader double']
